@@ -18,7 +18,8 @@ RULE = ("Hypothesis-generated cond-out trees: package directories over the ident
         "row set. Non-trivial = expected deletion set non-empty AND >=1 look-alike that must survive (nested in a task "
         "dir, a file, a recorded sibling with the same name, or the same name/ts recorded under another package). "
         "Distinct = SHA-1 of case JSON."
-        " Also generated: symbolic links planted in cond-out (to a directory outside, an alias of a package, a link named like a version) and directories whose names end in a newline - none of them may be deleted, listed or traversed.")
+        " Also generated: symbolic links planted in cond-out (to a directory outside, an alias of a package, a link named like a version) and directories whose names end in a newline - none of them may be deleted, listed or traversed."
+        " Task output directories may hold symbolic links (absolute and relative, at depth 1 and 2) to a data directory outside cond-out, to another task's output directory, to a file, and dangling ones: whatever they point to must be unchanged after gc.")
 ASSUMPTIONS = ["only directories whose names are valid package names, task directories of either form, files, and symbolic "
                "links placed by hand are generated (stray directories with other names are not: the property does not say "
                "what they are); a symbolic link is never an experiment output directory, and nothing may be deleted or listed "
@@ -26,7 +27,7 @@ ASSUMPTIONS = ["only directories whose names are valid package names, task direc
                "gc is invoked from the project root (cwd variation belongs to C17)"]
 ESSENTIAL = ["nested_lookalike", "recorded_same_name_other_pkg", "depth>=2", "row_without_dir", "dry_run", "verbose",
              "root_package_exp", "file_lookalike", "nothing_to_delete", "name_with_dash_or_underscore",
-             "name_with_trailing_newline"]
+             "name_with_trailing_newline", "symlink_inside_task_output"]
 TECHNIQUE = "property-based testing (Hypothesis) of the real CLI on generated cond-out trees; independently computed deletion set + tree snapshots as oracle"
 LEVEL_TEXT = "Randomised search over cond-out trees and index contents; exact-set oracle in both directions (deleted == expected, everything else byte-identical)."
 LEVEL_NOTE = "Trusted: the deletion-set model in this file; vf/trees.py snapshots."
@@ -47,7 +48,7 @@ def _strategy(draw, tier):
             name = draw(st.sampled_from(_NAMES))
             ts = draw(st.sampled_from([1, 5, 7, 10, 15, 100, 1700000000, 1700000001]))
             recorded = draw(st.booleans()) if kind == "exp" else False
-            inner = draw(st.sampled_from(["none", "none", "files", "nested_exp", "nested_task", "nested_both"])) if kind in ("exp", "task") else "none"
+            inner = draw(st.sampled_from(["none", "none", "files", "nested_exp", "nested_task", "nested_both", "links", "links"])) if kind in ("exp", "task") else "none"
             entries.append([pkg, kind, name, ts, recorded, inner])
     # rows without directories and same name/ts under another package
     for _ in range(draw(st.sampled_from([0, 0, 1, 2]))):
@@ -128,6 +129,25 @@ def build(root, case):
             labels.add("nested_lookalike")
         if inner in ("nested_task", "nested_both"):
             trees.write_tree(p, [["z.task", None], ["z.task/k.txt", "k"]])
+        if inner == "links":
+            # what tasks do with their inputs: links (at depth 1 and 2) to a data directory outside cond-out, to the
+            # output directory of another task (the previous entry, recorded or not, or a run_command output), to a
+            # file, and a dangling one.  Deleting the directory that holds the links must not touch what they point to.
+            labels.add("symlink_inside_task_output")
+            ext = os.path.join(root, "inputs", "ref")
+            os.makedirs(ext, exist_ok=True)
+            with open(os.path.join(ext, "input.csv"), "w") as f:
+                f.write("irreplaceable input data")
+            os.makedirs(os.path.join(ext, "w.task.3"), exist_ok=True)
+            with open(os.path.join(ext, "w.task.3", "kept.txt"), "w") as f:
+                f.write("kept")
+            ents = [["ref", "LINK:" + ext], ["deps/in/ref2", "LINK:" + ext], ["ref-file", "LINK:" + os.path.join(ext, "input.csv")],
+                    ["gone", "LINK:/nonexistent/target"], ["own.txt", "own data"]]
+            prev = [m for m, k in made.items() if k in ("exp", "task") and m != rel]
+            if prev:
+                ents.append(["dep-out", "LINK:" + os.path.join(out, prev[-1])])
+                ents.append(["deps/rel-dep", "LINK:" + os.path.relpath(os.path.join(out, prev[-1]), os.path.join(p, "deps"))])
+            trees.write_tree(p, ents)
         if kind == "exp":
             tid = "//%s:%s" % (pkg, name)
             if recorded:
